@@ -1,0 +1,67 @@
+//go:build verif
+
+package vgirpc
+
+import (
+	"fmt"
+	"reflect"
+
+	"github.com/apache/arrow-go/v18/arrow"
+)
+
+// Verification hooks for C08 (build tag "verif"): the struct serializer /
+// deserializer pair and the schema derivation, reached through the same entry
+// points the server uses. Add-only; nothing here is compiled into normal builds.
+
+// VerifC08Serialize is serializeVgirpcStruct (a tagged struct -> Arrow IPC stream
+// bytes). A panic is returned instead of propagated.
+func VerifC08Serialize(v any) (data []byte, err error, panicked any) {
+	defer func() {
+		if r := recover(); r != nil {
+			data, err, panicked = nil, nil, fmt.Sprint(r)
+		}
+	}()
+	data, err = serializeVgirpcStruct(v)
+	return data, err, nil
+}
+
+// VerifC08Deserialize is deserializeParams (row 0 of a batch -> a value of struct
+// type t). A panic is returned instead of propagated.
+func VerifC08Deserialize(batch arrow.RecordBatch, t reflect.Type) (v reflect.Value, err error, panicked any) {
+	defer func() {
+		if r := recover(); r != nil {
+			v, err, panicked = reflect.Value{}, nil, fmt.Sprint(r)
+		}
+	}()
+	v, err = deserializeParams(batch, t)
+	return v, err, nil
+}
+
+// VerifC08DeriveSchema performs the uncached reflection walk (buildStructDesc)
+// for struct type t.
+func VerifC08DeriveSchema(t reflect.Type) (*arrow.Schema, error) {
+	if t.Kind() == reflect.Ptr {
+		t = t.Elem()
+	}
+	d := buildStructDesc(t)
+	return d.Schema, d.Err
+}
+
+// VerifC08CachedSchema is structToSchema (the memoized derivation every call uses).
+func VerifC08CachedSchema(t reflect.Type) (*arrow.Schema, error) { return structToSchema(t) }
+
+// VerifC08SerializeResult is serializeResult for return type t: a 1-row batch
+// with the single "result" column of resultSchema(t).
+func VerifC08SerializeResult(t reflect.Type, value any) (batch arrow.RecordBatch, err error, panicked any) {
+	defer func() {
+		if r := recover(); r != nil {
+			batch, err, panicked = nil, nil, fmt.Sprint(r)
+		}
+	}()
+	schema, err := resultSchema(t)
+	if err != nil {
+		return nil, err, nil
+	}
+	batch, err = serializeResult(schema, value)
+	return batch, err, nil
+}
